@@ -47,7 +47,18 @@ def run_model(mod, cases_path, outpath):
     with open(cases_path, "rb") as fi, open(outpath, "wb") as fo:
         import subprocess
         try:
-            p = subprocess.run([exe], stdin=fi, stdout=fo, stderr=subprocess.PIPE, timeout=3600)
+            def _big_stack():
+                # extracted code is not tail recursive everywhere: give the driver a large stack
+                import resource
+                try:
+                    resource.setrlimit(resource.RLIMIT_STACK, (resource.RLIM_INFINITY, resource.RLIM_INFINITY))
+                except (ValueError, OSError):
+                    try:
+                        soft, hard = resource.getrlimit(resource.RLIMIT_STACK)
+                        resource.setrlimit(resource.RLIMIT_STACK, (hard, hard))
+                    except (ValueError, OSError):
+                        pass
+            p = subprocess.run([exe], stdin=fi, stdout=fo, stderr=subprocess.PIPE, timeout=3600, preexec_fn=_big_stack)
         except subprocess.TimeoutExpired:
             return 124, "model driver timeout"
         return p.returncode, p.stderr.decode("utf8", "replace")
